@@ -60,6 +60,49 @@ CLAIMS = {
          "monitor's own lifecycle; typed monitors forward slot-for-slot.", "DESIGN.md §5 C16"),
 }
 
+CLAIMS.update({
+ "C02": ("event columns of the cache decision tables + value-flow of the distributed slices + distributor shape rules",
+         "other", "Decides that Create/Update/Delete are emitted exactly on the rows that change the cache in that way (and nothing on no-op rows), "
+         "with the row's object and type, that every mutator returns exactly the events it built, and that controller and filtered "
+         "subscription publish exactly that slice, each element once, in order. Event order inside a batch is compared as a set.", "DESIGN.md §5 C02"),
+ "C07": ("refilter rows of the filterSubscription table + doSync table at equal versions + equality-soundness rules",
+         "other", "Decides the per-step behaviour of Refilter (equal filter: nothing; changed: list parent, refilter, remember, distribute "
+         "exactly those events; membership changes are the doSync rows at equal versions) and re-evaluates C17's soundness rules that the "
+         "equal-filter short-circuit relies on. 'No events in flight' is the property's premise.", "DESIGN.md §5 C06-C08"),
+ "C08": ("controller/filterSubscription tables (readiness rows) + ready-channel value-flow + who-may-close",
+         "other", "Decides when ready channels close (controller: first successful sync only; filtered: only rows that synced the private "
+         "cache; deferred ones start from the reject-all filter), that every Ready() hands out that very channel, that only the two run loops "
+         "close it, that distribution needs ready=T and the watcher starts with no channel, and that joins refilter only from callbacks.", "DESIGN.md §5 C06-C08"),
+ "C09": ("value-flow / shape rules on the generated joins + resource-release path analysis + who-may-close",
+         "other", "Decides the join construction (for-filter clone of the destination, all four handler slots, refilter from the full current "
+         "source cache at callback time, monitor on the source), that everything created in package join is released on every exit (returned, "
+         "closed, or tied to the result's Done()), and that nothing handed in is ever closed. Quiescent equality rests on C06/C07/C16/C19.", "DESIGN.md §5 C09"),
+ "C14": ("error rows of the controller table + shape rules of the list helpers + containment rules for watch failures",
+         "other", "Decides that each list failure kind stops the controller with a cause derived from the failing call, that a deliberate Close "
+         "reports nil, that Error() is the lifecycle's error, and that watch failures cannot escalate (watcher initiates shutdown only on request, "
+         "always re-arms a retry; the session touches its connection only after the connect error check).", "DESIGN.md §5 C14"),
+ "C15": ("field confinement (single-owner) + atomic-handler rule + snapshot freshness",
+         "other", "A static race-freedom/atomicity argument for all schedules: cache state is touched only on the one run goroutine, each handler "
+         "runs to completion inside one select arm, replies carry the handler's own result, List returns a fresh slice of every entry, the map "
+         "never escapes. Caller mutation of the shared objects is outside C15.", "DESIGN.md §5 C15"),
+ "C17": ("method-set enumeration of ComparableFilter implementors + read-set vs compared-set (non-interference) analysis",
+         "other", "Decides for every comparable filter type that Equals asserts its own type and compares, with a trusted comparator pairing the "
+         "same field on both sides, every part of the receiver that Accept reads; Accept purity; FiltersEqual's table; compareFilterList's "
+         "length-and-every-index shape. Completeness of equality is not required; DeepEqual on selector internals is trusted.", "DESIGN.md §5 C17"),
+ "C18": ("shape rules over the SSA paths of every Accept and constructor in package filter",
+         "other", "Decides the boolean structure of Null/All/Not/And/Or, the NSName routing and wildcard table, that selector filters are exactly "
+         "selector.Matches(obj labels) with no shortcut, the constructor chains, and purity of Accept. Kubernetes selector semantics are delegated.", "DESIGN.md §5 C18"),
+ "C19": ("sibling-shape comparison of the seven PodsFilter + shape rules for the ingress and kind filters",
+         "other", "Decides that every workload pods filter sorts a copy of its sources, scopes each element to that source's namespace and uses "
+         "selector-or-template-fallback, that the ingress filter collects the default backend and every rule path per ingress independently, and "
+         "the kind guards/field pairing of node, involved-object and selector-match filters. One known finding (RC namespace scoping).", "DESIGN.md §5 C19"),
+ "C20": ("token-level unification of generated files with their templates + shape rules on the instances + client-go oracle for typed clients",
+         "translation_validation", "Validates all 20 generated files against their templates (one consistent ObjectType binding per typed package; "
+         "join template instantiated from the generated signature), and decides template robustness (comma-ok, foreign objects skipped, "
+         "non-blocking forwarding, 1:1 forwarders) and that each typed client uses the API group and resource string of client-go's own typed "
+         "client. Differential typed/untyped runs are not performed.", "DESIGN.md §5 C20"),
+})
+
 def main():
     props = [json.loads(l) for l in open('/verif/properties.jsonl')]
     checks = []
